@@ -101,8 +101,25 @@ def reference(desc, role, seq):
         sub = seq[a:b] if st != -1 else rcs(seq[a:b])
         ok = sub in kw["choices"]
         return Fraction(0 if ok else -1), ([] if ok else [set(range(a, b))]), ok
-    if name == "AvoidChanges" and "max_edits_percent" not in kw:
-        return None, [], None     # needs the original: handled in check_against_original
+    if name == "AvoidChanges":
+        # score = allowance - number of positions differing from the sequence to keep (the given
+        # target, else the sequence the specification was initialised on = the evaluated one)
+        import math
+        idx = kw.get("indices")
+        L = len(idx) if idx is not None else (b - a)
+        allow = kw.get("max_edits") or 0
+        if kw.get("max_edits_percent") is not None:
+            allow = math.floor(kw["max_edits_percent"] * L / 100.0)
+        tgt = kw.get("target_sequence")
+        if tgt is None:
+            edits, bad = 0, []
+        else:
+            cur = "".join(seq[i] for i in idx) if idx is not None else seq[a:b]      # (strand -1 is read as +1)
+            bad = [i for i in range(min(len(cur), len(tgt))) if cur[i] != tgt[i]]
+            edits = len(bad)
+            bad = [idx[i] for i in bad] if idx is not None else [a + i for i in bad]
+        sc = Fraction(allow - edits)
+        return sc, [{p_} for p_ in bad], sc >= 0
     if name == "EnforceChanges" and kw.get("reference") is None:
         # initialised on the evaluated sequence itself: no position differs from the reference.
         # objective: -|changes - amount| (amount given, or a percentage of the positions, default all);
